@@ -18,11 +18,21 @@ int64_t c_int(var x) { return ((struct Int*)x)->val; }
 uint64_t hash_data(const void* d, size_t n) { return n; }
 static int expect_throw; void cv_on_throw(var obj) { ASSERT(obj == OutOfMemoryError, "[C15] reading back what show wrote raises nothing"); }
 /* the character stream */
-static char STREAM[4 * LS + 8]; static int cv_wpos;
+static char STREAM[6 * LS + 16]; static int cv_wpos;
 int print_to_with(var out, int pos, const char* fmt, var args) {
+  /* print_to at the level String.c may use it: literal text, %%, %c and %s with one argument. A conversion specification without an
+   * argument to go with it is what the real print_to answers with FormatError - that is how characters of the value show up when
+   * they are handed over as format text */
   __CPROVER_assert(pos == cv_wpos, "harness: show writes sequentially");
-  if (fmt[0] == '%' && fmt[1] == 'c' && fmt[2] == 0) { STREAM[cv_wpos++] = (char)c_int(get(args, NULL)); }
-  else { for (int i = 0; fmt[i] != 0; i++) { __CPROVER_assert(fmt[i] != '%', "harness: literal text only"); STREAM[cv_wpos++] = fmt[i]; } }
+  size_t nargs = len(args), used = 0;
+  for (int i = 0; fmt[i] != 0; i++) {
+    if (fmt[i] != '%') { STREAM[cv_wpos++] = fmt[i]; continue; }
+    if (fmt[i + 1] == '%') { STREAM[cv_wpos++] = '%'; i++; continue; }
+    if (used >= nargs) { __CPROVER_assert(0, "[C15] show never hands characters of the value to print_to as a conversion specification (FormatError, or text that differs from the value)"); __CPROVER_assume(0); }
+    if (fmt[i + 1] == 'c') { STREAM[cv_wpos++] = (char)c_int(get(args, NULL)); used++; i++; continue; }
+    if (fmt[i + 1] == 's') { const char* v = ((struct String*)get(args, NULL))->val; for (int k = 0; v[k] != 0; k++) STREAM[cv_wpos++] = v[k]; used++; i++; continue; }
+    __CPROVER_assert(0, "harness: print_to with a conversion other than %c and %s");
+  }
   return cv_wpos;
 }
 int scan_from_with(var input, int pos, const char* fmt, var args) {
